@@ -539,13 +539,12 @@ func (r *FnRun) modTargets(fr *Frame, ctx *EvalCtx, e Expr, add func(comp string
 		case "elems":
 			x := ctx.Eval(e.Args[0])
 			st := types.Unalias(x.Ty).Underlying().(*types.Slice)
-			add(elemsComp(r.TM.SortOf(st.Elem())), app(SInt, "s-arr", x.T), false)
+			add(elemsComp(st.Elem()), app(SInt, "s-arr", x.T), false)
 		case "mapOf":
 			x := ctx.Eval(e.Args[0])
 			mt := types.Unalias(x.Ty).Underlying().(*types.Map)
-			ks, vs := fr.mapSorts(mt)
-			add(mapDomComp(ks, vs), x.T, false)
-			add(mapValComp(ks, vs), x.T, false)
+			add(mapDomComp(mt), x.T, false)
+			add(mapValComp(mt), x.T, false)
 			add(mapLenComp, x.T, false)
 		case "fields":
 			for _, n := range ctx.heapCompNames("field " + typeExprString(e.Args[0])) {
@@ -581,7 +580,7 @@ func (r *FnRun) modTargets(fr *Frame, ctx *EvalCtx, e Expr, add func(comp string
 						}
 					}
 				} else {
-					add(boxComp(r.TM.SortOf(el)), v.T, false)
+					add(boxComp(el), v.T, false)
 					for _, comp := range fr.reachComps(el) {
 						add(comp, Term{}, true)
 					}
@@ -597,7 +596,7 @@ func (r *FnRun) modTargets(fr *Frame, ctx *EvalCtx, e Expr, add func(comp string
 	case EIdent:
 		if v, ok := ctx.vars["&"+e.Name]; ok {
 			el := v.Ty.(*types.Pointer).Elem()
-			add(boxComp(r.TM.SortOf(el)), v.T, false)
+			add(boxComp(el), v.T, false)
 			return
 		}
 		ctx.fail("unsupported modifies target %s", ExprString(e))
